@@ -52,6 +52,7 @@ fn spawn_worker() -> Worker {
     let mut child = Command::new(exe)
         .arg("worker")
         .env_remove("RUST_BACKTRACE")
+        .current_dir(std::env::var("VERIF_REPO").unwrap_or_else(|_| "/repo".to_string()))
         .env("RUST_LOG", "off")
         .stdin(Stdio::piped())
         .stdout(Stdio::piped())
